@@ -11,7 +11,7 @@ from vlib import harness_bin
 
 class Rec:
     __slots__ = ("kind", "t", "ep", "conn", "space", "pn", "payload", "_frames", "name", "text", "what", "args",
-                 "src", "dst", "len", "action", "at", "head", "idx")
+                 "src", "dst", "len", "action", "at", "head", "idx", "orig")
 
     def __init__(self, kind):
         self.kind = kind
@@ -57,6 +57,8 @@ class Trace:
                 r.t = int(f[0]); r.src = f[1]; r.dst = f[2]; r.len = int(f[3]); r.action = f[4]
                 r.at = int(f[5]) if f[5] != "-" else None
                 r.head = bytes.fromhex(f[6]) if len(f) > 6 and f[6] != "-" else b""
+                # datagrams altered in flight carry the length their sender put on the wire as an extra token `o<len>`
+                r.orig = int(f[7][1:]) if len(f) > 7 and f[7].startswith("o") else r.len
             elif k == "end":
                 f = rest.split(" ", 2)
                 self.end = (int(f[0]), f[1], f[2] if len(f) > 2 else "")
@@ -66,8 +68,9 @@ class Trace:
                 continue
             elif k == "attack":
                 f = rest.split(" ")
-                self.attack = {"t": int(f[0]), "name": f[3], "pn": int(f[4])}
-                r = Rec("attack"); r.t = int(f[0])
+                self.attack = {"t": int(f[0]), "name": f[3], "pn": int(f[4]), "ep": f[1], "conn": f[2],
+                               "space": f[5] if len(f) > 5 else "app"}
+                r = Rec("attack"); r.t = int(f[0]); r.ep = f[1]
             else:
                 continue
             r.idx = idx
@@ -257,7 +260,7 @@ def o_c03(tr):
                 elif f["type"] == "MAX_STREAMS":
                     L.max_streams[f["bidi"]] = max(L.max_streams[f["bidi"]], f["max"])
         elif r.kind == "txp" and r.space == "app":
-            if tr.attack and r.ep == "c":
+            if tr.attack and r.ep == tr.attack.get("ep", "c"):
                 continue      # the attacker's own packets are not the implementation's choice
             L = lim[r.ep]
             H = highest[r.ep]
@@ -323,7 +326,7 @@ def o_c12(tr):
     for r in tr.recs:
         if r.kind != "txp":
             continue
-        if tr.attack and r.ep == "c":
+        if tr.attack and r.ep == tr.attack.get("ep", "c"):
             continue
         ep = r.ep
         types = [f["type"] for f in r.frames]
@@ -400,7 +403,7 @@ def o_c08(tr):
             if k in last_pn and r.pn <= last_pn[k]:
                 bad.append(("e2e:c08:pn-not-increasing", f"endpoint {r.ep} {r.space}: packet number {r.pn} after {last_pn[k]}"))
             last_pn[k] = r.pn
-            if tr.attack and r.ep == "c":
+            if tr.attack and r.ep == tr.attack.get("ep", "c"):
                 continue
             got = processed.get(k, set())
             for f in r.frames:
